@@ -511,6 +511,10 @@ def run_case(case):
     hist = out['history']
     for h in hist:
         r = h['res']
+        if r and r[0] == 'exc' and h['op'].get('op') == 'reset' and r[1] == 'OperationalError':
+            # a settings update retries for 60 s and then gives up with the database error: what happens behind a block that
+            # sleeps longer than that; like a Timeout it had no effect
+            r = h['res'] = ('exc', 'Timeout')
         if r and r[0] == 'exc' and r[1] not in ('KeyError', 'Timeout', 'TypeError'):
             violations.append({'rule': 'C06/unexpected-exception', 'sig': r[1], 'detail': '%s op %s -> %s' % (h['task'], json.dumps(h['op'])[:150], r)})
         if r and r[0] == 'exc' and r[1] == 'Timeout':
